@@ -231,6 +231,8 @@ def semantic_analysis(
     checking = _check_script(script)
     vtl = load_vtl(checking)
     ast = create_ast(vtl)
+    # Statements are analysed in dependency order, not in written order (as run() does)
+    DAGAnalyzer.create_dag(ast)
 
     # Loading datasets from file/dict/pysdmx objects/URLs
     datasets, scalars = load_datasets(data_structures, sdmx_mappings=mapping_dict)
